@@ -13,7 +13,7 @@ configurations and serialises every returned `Workflow` object tree as a value o
   * one contract (`post`) per leaf pass class and the block enter/exit transfer of
     `ForEachBlockPass` (`feEnter`, `feExit`),
   * the abstract interpreter `ainterp` (loops: iterate to a post-fixpoint with fuel, the stability
-    test is part of the definition; `top` when the fuel runs out),
+    test is part of the definition; the result is `top` when the fuel runs out),
   * the postconditions `executable` (C02), `semOK` (C01/C03),
   * small pure transcriptions: `isCompatible` (MachineModel.is_compatible), `compileList`
     (the submit/collect loop of `compile` for list inputs).
@@ -198,6 +198,9 @@ structure AState where
   pdSQ : Bool      -- ... a foreign single-qudit gate
   deriving DecidableEq, Repr, Inhabited
 
+/-- Widths above `cap` are identified (so that `top` absorbs every state). -/
+def cap : Nat := 1000000
+
 def AState.join (a b : AState) : AState where
   f2 := a.f2 || b.f2
   fMany := a.fMany || b.fMany
@@ -215,8 +218,8 @@ def AState.join (a b : AState) : AState where
   uncoupled := a.uncoupled || b.uncoupled
   narrow := a.narrow || b.narrow
   wLo := min a.wLo b.wLo
-  wHi := max a.wHi b.wHi
-  blockHi := max a.blockHi b.blockHi
+  wHi := min cap (max a.wHi b.wHi)
+  blockHi := min cap (max a.blockHi b.blockHi)
   noModel := a.noModel || b.noModel
   hidden := a.hidden || b.hidden
   vis := a.vis || b.vis
@@ -255,8 +258,8 @@ def AState.top : AState where
   uncoupled := true
   narrow := true
   wLo := 0
-  wHi := 1000000
-  blockHi := 1000000
+  wHi := cap
+  blockHi := cap
   noModel := true
   hidden := true
   vis := true
@@ -508,12 +511,12 @@ def wrapExit (_c : Cfg) (k : LeafKind) (_o : Opts) (a r : AState) : AState :=
 
 /-! ## Abstract interpreter -/
 
-/-- Kleene iteration with a stability test; `top` when the fuel runs out. -/
-def iter : Nat → (AState → AState) → AState → AState
-  | 0, _, _ => AState.top
+/-- Kleene iteration with a stability test; `none` when the fuel runs out. -/
+def iter : Nat → (AState → AState) → AState → Option AState
+  | 0, _, _ => none
   | n + 1, f, a =>
       let a' := a.join (f a)
-      if a' = a then a else iter n f a'
+      if a' = a then some a else iter n f a'
 
 def loopFuel : Nat := 12
 
@@ -527,10 +530,13 @@ def ainterp (c : Cfg) (h : Hyps) : Pass → AState → AState
       | some false => ainterp c h e (assume c pr false a)
       | none => (ainterp c h t (assume c pr true a)).join (ainterp c h e (assume c pr false a))
   | .while_ pr b, a =>
-      assume c pr false (iter loopFuel (fun x => ainterp c h b (assume c pr true x)) a)
+      match iter loopFuel (fun x => ainterp c h b (assume c pr true x)) a with
+      | some inv => assume c pr false inv
+      | none => AState.top
   | .dowhile pr b, a =>
-      assume c pr false
-        (ainterp c h b (iter loopFuel (fun x => assume c pr true (ainterp c h b x)) a))
+      match iter loopFuel (fun x => assume c pr true (ainterp c h b x)) a with
+      | some inv => assume c pr false (ainterp c h b inv)
+      | none => AState.top
   | .foreach o b, a => feExit c h o a (joinAll a ((feEnter c o a).map (ainterp c h b)))
   | .choice p q, a => (ainterp c h p a).join (ainterp c h q a)
   | .wrap k o i, a => wrapExit c k o a (ainterp c h i a)
